@@ -7,6 +7,8 @@ from .facts import Program
 
 VERIF = extract.VERIF
 KNOWN = os.path.join(VERIF, 'known_findings.jsonl')
+# scratch runs (tools/detect_seeded.py) redirect evidence and reports so that /verif/evidence always describes /repo itself
+OUT = os.environ.get('VSA_OUT_DIR') or VERIF
 
 
 class AnalysisError(Exception):
@@ -90,7 +92,7 @@ def load_known():
 
 
 def write_evidence(pid, tier, seed, ctx, t0, nviol, nknown, level='other', error=None):
-    os.makedirs(os.path.join(VERIF, 'evidence'), exist_ok=True)
+    os.makedirs(os.path.join(OUT, 'evidence'), exist_ok=True)
     prog = ctx.prog if ctx else None
     cov = {
         'explanation': ('Static analysis of the MIR/ADT facts rustc produced for /repo\'s current working tree '
@@ -122,7 +124,7 @@ def write_evidence(pid, tier, seed, ctx, t0, nviol, nknown, level='other', error
             'third-party crates and std are trusted'],
         'wall_s': round(time.time() - t0, 2), 'violations': nviol,
     }
-    p = os.path.join(VERIF, 'evidence', f'{pid}.json')
+    p = os.path.join(OUT, 'evidence', f'{pid}.json')
     with open(p + '.tmp', 'w') as fh:
         json.dump(ev, fh, indent=1, default=str)
     os.replace(p + '.tmp', p)
@@ -183,7 +185,7 @@ def main(argv):
             print(f'NOTE: listed known finding no longer produced (repaired or moved?): {k}')
     rc = 0
     if viol:
-        rdir = os.path.join(VERIF, 'reports', pid)
+        rdir = os.path.join(OUT, 'reports', pid)
         os.makedirs(rdir, exist_ok=True)
         for f in viol:
             h = hashlib.sha1(f.key.encode()).hexdigest()[:12]
